@@ -49,6 +49,8 @@ def bfs(fst, src0, depth, alphas, part, res, on_state, on_raise=None, kind='exec
             cur = canon(base)
             ops = list(enum(cur[2], d) if enum else E.enumerate_ops(cur[2], **alphas[d]))
             for op in ops:
+                if op.get('leaf') and not count_this:
+                    continue  # judged by the counting shard only and never part of the frontier (see below)
                 cid = f'{cid_prefix}{"|".join(E.op_id(o) for o in hist + [op])}'
                 try:
                     with deadline(horizon):
@@ -96,8 +98,8 @@ def bfs(fst, src0, depth, alphas, part, res, on_state, on_raise=None, kind='exec
                     from .fstnav import live_vs_parse
                     if live_vs_parse(root, 'Module' if kind == 'exec' else None):
                         expand = False  # a state that already failed C01 is reported once (by the counting shard) and not expanded
-                if not expand:
-                    continue
+                if not expand or op.get('leaf'):
+                    continue  # 'leaf' requests (e.g. fault injections that happened to succeed) are judged but not expanded
                 if hh not in seen:
                     seen.add(hh)
                     if count_this:
